@@ -113,9 +113,15 @@ class Co:
         return bool(r[0]), bool(r[1])
 
     def load(self, files):
-        self.ask("reset")
+        lines = ["reset"]
         for num, ft, ew, words in files:
-            self.ask("file", str(num), ft, str(ew), fw.t_bytes(b"".join(struct.pack("<H", w) for w in words)))
+            bs = b"".join(struct.pack("<H", w) for w in words)
+            lines.append(" ".join(["file", str(num), ft, str(ew), fw.t_bytes(bs[:128])]))
+            for i in range(128, len(bs), 128):           # short lines: the shared token parser is quadratic in the token length
+                lines.append(" ".join(["more", str(num), fw.t_bytes(bs[i:i + 128])]))
+        for o in self.mp.batch(lines):
+            if o != "ok":
+                raise RuntimeError("co-process refused a table line: " + o)
 
     def exec(self, mr):
         r = self.ask("exec", fw.t_bytes(mr))
@@ -221,6 +227,8 @@ def gen_addr(rng, ft=None):
     elif ft in "IO":
         file = 0 if ft == "O" else 1
         sub = pick(rng, [0, 0, 0, 1, 2, 9, 10, 99, 100, 254], 0, 254, p=0.8)
+        if sub > 3:
+            elem = rng.choice([0, 1, 2, 9, 10])            # keep the slot array small: words per slot x slots
         if rng.random() < 0.5:
             bit = pick(rng, [0, 1, 9, 10, 15], 0, 15)
     else:
@@ -243,6 +251,15 @@ def gen_spelling(rng, a):
             flat, rng.random() < 0.4, rng.random() < 0.4, rng.random() < 0.3)
 
 
+def rand_words(rng, ft, n):
+    ws = [rand_word(rng) for _ in range(n)]
+    if ft == "F":                                         # no NaN patterns in float files
+        for i in range(1, n, 2):
+            if (ws[i] >> 7) & 0xFF == 0xFF and ((ws[i] & 0x7F) or ws[i - 1]):
+                ws[i] ^= 0x4000
+    return ws
+
+
 def rand_word(rng):
     return rng.choice([0, 0xFFFF, 0x8000, 0x7FFF, 1, 0x5555, 0xAAAA]) if rng.random() < 0.3 else rng.randrange(65536)
 
@@ -253,9 +270,9 @@ def gen_table(rng, a, fault=None):
     ew = EWORDS.get(ft) or max(sub + 1, rng.choice([1, 1, 2, 3, 4]))
     need = elem * ew + sub + VWORDS.get(ft, 1) * cnt
     extra = rng.choice([0, 0, 1, 2, 5]) * ew
-    nwords = need + extra
+    nwords = -(-need // ew) * ew + extra                  # data files hold whole elements
     if fault == "short":
-        nwords = max(0, need - rng.choice([1, 1, 2, VWORDS.get(ft, 1) * cnt]))
+        nwords = max(0, (need - rng.choice([1, 1, 2, VWORDS.get(ft, 1) * cnt])) // ew * ew)
     if fault == "sub" and ft in "IO":
         ew = max(1, sub)           # the word does not exist in the slot
     files = []
@@ -263,13 +280,13 @@ def gen_table(rng, a, fault=None):
     if fault == "type":
         tft = rng.choice([x for x in "NBFLST" if x != ft and EWORDS.get(x) == EWORDS.get(ft, 1)] or ["N"])
     if fault != "nofile":
-        files.append((file, tft, ew, [rand_word(rng) for _ in range(nwords)]))
+        files.append((file, tft, ew, rand_words(rng, tft, nwords)))
     used = {file}
     for _ in range(rng.choice([0, 1, 2, 3])):
         n = rng.choice([x for x in (0, 1, 2, 3, 4, 5, 7, 8, 9, 10, 254, 255, rng.randint(0, 255)) if x not in used])
         used.add(n)
         oft = rng.choice("NBFLTCS")
-        files.append((n, oft, EWORDS[oft], [rand_word(rng) for _ in range(EWORDS[oft] * rng.choice([1, 2, 8, 40]))]))
+        files.append((n, oft, EWORDS[oft], rand_words(rng, oft, EWORDS[oft] * rng.choice([1, 2, 8, 40]))))
     rng.shuffle(files)
     return files
 
